@@ -52,8 +52,12 @@ def reps_of(g, P, rng):
         return [("id:std", V.proj(g, f.zero, f.one, f.zero)), ("id:t", V.proj(g, *G.identity_rep(g, t))),
                 ("id:11", V.proj(g, f.one, f.one, f.zero))]
     lam = G.rand_fe(g, rng)
-    return [("z1", V.proj(g, P[0], P[1], f.one)), ("z-1", V.proj(g, *G.rescale(g, P, f.neg(f.one)))),
-            ("zl", V.proj(g, *G.rescale(g, P, lam)))]
+    out = [("z1", V.proj(g, P[0], P[1], f.one)), ("z-1", V.proj(g, *G.rescale(g, P, f.neg(f.one)))),
+           ("zl", V.proj(g, *G.rescale(g, P, lam)))]
+    if g == 2:
+        # a representative whose Z has a zero component (purely imaginary / purely real)
+        out.append(("zi", V.proj(g, *G.rescale(g, P, rng.choice(G.special_lambdas(g, rng)[2:])))))
+    return out
 
 
 def pool(g, rng):
